@@ -1,5 +1,6 @@
 """Shared harness for the QC-test properties: scenario skeletons, running, generic comparisons."""
 import itertools
+import os
 from fractions import Fraction as Fr
 
 from . import expr as X
@@ -145,7 +146,12 @@ def table_rule(ck, rule, case, spec, scope='present'):
            'all'     - every position
            'missing' - C02's projection: missing positions exactly; at present positions only the use of MISSING
     """
-    out = run_case(ck, case)
+    try:
+        out = run_case(ck, case)
+    except AnalysisError as e:
+        if spec.rejects or not atoms_in([case.args, case.kwargs], set()) or os.environ.get('VERIF_NO_CONCRETE'):
+            raise
+        return concrete_table_rule(ck, rule, case, spec, scope, str(e)[:160])
     if not expect_raise(ck, rule + ('.reject' if spec.rejects else '.total'), case, out, spec.rejects,
                         'invalid parameters must be rejected'):
         return None
@@ -167,7 +173,12 @@ def table_rule(ck, rule, case, spec, scope='present'):
         if scope == 'missing' and not missing:
             return qs, (lambda cell: allowed(cell) | {G, U, S, F})
         return qs, allowed
-    res = compare_flags(ck, rule, case, vec, pos)
+    try:
+        res = compare_flags(ck, rule, case, vec, pos)
+    except AnalysisError as e:
+        if not atoms_in([case.args, case.kwargs], set()) or os.environ.get('VERIF_NO_CONCRETE'):
+            raise
+        return concrete_table_rule(ck, rule, case, spec, scope, str(e)[:160])
     for m in res.mismatches:
         ck.violate(rule + '.table', f'{fn_key(case)}:{case.meta.get("class", "")}:{class_of_mismatch(m)}',
                    f"{case.label}: position {m['where'].rsplit('@', 1)[-1].strip()} cell {m['cell']} gives "
@@ -176,3 +187,157 @@ def table_rule(ck, rule, case, spec, scope='present'):
     if not res.mismatches:
         ck.hold(rule + '.table', case.label)
     return out
+
+
+# ---------------------------------------------------------------------------------------------------------------
+# concretised fallback: when the symbolic interpretation of a scenario is refused (a construct or library call outside
+# the symbolic model), the scenario is re-run with exact representative data for every order cell of the *specification*;
+# library calls outside the model are then answered by the real library on concrete values (sa/bridge.py).
+
+def qval(q, env):
+    """numeric value of a quantity under concrete data (std via sqrt, geodesic via geographiclib)"""
+    import math
+    t = q[0]
+    if t == 'red' and q[1] in ('std', 'std_sample', 'std_pop'):
+        vs = [qval(a, env) for a in q[2]]
+        m = sum(vs) / len(vs)
+        ss = sum((v - m) ** 2 for v in vs)
+        return math.sqrt(float(ss / (len(vs) - (1 if q[1] == 'std_sample' else 0))))
+    if t == 'fn' and q[1] == 'geodist':
+        from geographiclib.geodesic import Geodesic
+        a = [float(qval(x, env)) for x in q[2]]
+        return Geodesic.WGS84.Inverse(*a)['s12']
+    if t == 'fn' and q[1] in ('trunc', 'floor', 'rint'):
+        v = qval(q[2][0], env)
+        return Fr({'trunc': math.trunc, 'floor': math.floor, 'rint': round}[q[1]](v))
+    if t == 'lin':
+        return sum((qval(g, env) * k for g, k in q[1]), q[2])
+    if t == 'abs':
+        return abs(qval(q[1], env))
+    if t in ('min', 'max'):
+        vs = [qval(a, env) for a in q[1]]
+        return min(vs) if t == 'min' else max(vs)
+    if t == 'mul':
+        r = 1
+        for a in q[1]:
+            r = r * qval(a, env)
+        return r
+    if t == 'div':
+        return qval(q[1], env) / qval(q[2], env)
+    return X.eval_num(q, env)
+
+
+def concretise_value(v, env):
+    from .vec import El, Sc
+    if isinstance(v, Sc):
+        d = v.d
+        if X.data_atoms(d):
+            return Sc(X.num(Fr(qval(d, env))), v.dtype, v.unit)
+        return v
+    if isinstance(v, Vec):
+        cells = []
+        for e in v.back.cells:
+            cells.append(El(X.num(Fr(qval(e.d, env))), e.m) if isinstance(e.d, tuple) and X.data_atoms(e.d) else e)
+        out = Vec.fresh([cells[i] for i in v.idx], kind=v.kind, dtype=v.dtype, unit=v.unit, owner=v.back.owner, index=v.index, tz=v.tz)
+        return out
+    if isinstance(v, list):
+        return [concretise_value(x, env) for x in v]
+    if isinstance(v, tuple) and not hasattr(v, '_fields'):
+        return tuple(concretise_value(x, env) for x in v)
+    if isinstance(v, dict):
+        return {k: concretise_value(x, env) for k, x in v.items()}
+    return v
+
+
+def atoms_in(v, acc):
+    from .vec import Sc
+    if isinstance(v, Sc):
+        acc |= X.data_atoms(v.d)
+    elif isinstance(v, Vec):
+        for e in v.back.cells:
+            if isinstance(e.d, tuple):
+                acc |= X.data_atoms(e.d)
+    elif isinstance(v, (list, tuple)):
+        for a in v:
+            atoms_in(a, acc)
+    elif isinstance(v, dict):
+        for a in v.values():
+            atoms_in(a, acc)
+    return acc
+
+
+def concrete_flags_of(vec, p):
+    """flag set of position p of a concretely computed result"""
+    e = vec.el(p)
+    qs = {}
+    for a in X.atoms_of(e.d):
+        qs[a[2]] = qval(a[2], {})
+    return flags_of(X.eval_values(e.d, qs)), e.m
+
+
+def concrete_table_rule(ck, rule, case, spec, scope, reason):
+    """representative exact data for every order cell of the specification at every position"""
+    from .cells import candidate_ranks, numeric_evaluable, realise
+    import itertools as _it
+    atoms = sorted(atoms_in([case.args, case.kwargs], set()), key=repr)
+    ck.notes.append(f'{case.label}: symbolic interpretation refused ({reason}); concretised order-cell run used instead')
+    ck.rule_counts['concretised-fallback'] = ck.rule_counts.get('concretised-fallback', 0) + 1
+    rng = ck.rng
+    bad = 0
+    runs = 0
+    for p in range(case.n):
+        missing = spec.is_missing(p) if hasattr(spec, 'is_missing') else case.pat.get('inp', 'p' * case.n)[p] == 'm'
+        if scope == 'present' and missing:
+            continue
+        qs, allowed = spec.pos(p)
+        if scope == 'missing' and not missing:
+            base_allowed = allowed
+            allowed = (lambda cell, _a=base_allowed: _a(cell) | {G, U, S, F})
+        breaks = {q: list(b) for q, b in qs}
+        order = sorted(breaks, key=repr)
+        steer = [q for q in order if numeric_evaluable(q)]
+        cells = list(_it.product(*[candidate_ranks(breaks[q]) for q in steer])) if steer else [()]
+        if len(cells) > 60:
+            rng.shuffle(cells)
+            cells = cells[:60]
+        free_runs = 1 if steer and len(steer) == len(order) else 6
+        for combo in cells:
+            cell = dict(zip(steer, combo))
+            env0 = realise(cell, rng, breaks=breaks) if steer else {}
+            if env0 is None:
+                continue
+            for _ in range(free_runs):
+                env = {a: Fr(rng.randint(-12, 24), rng.choice((1, 2, 4))) for a in atoms}
+                env.update(env0)
+                try:
+                    actual = {q: qval(q, env) for q in order}
+                except (ZeroDivisionError, ImportError, KeyError):
+                    continue
+                want = allowed(actual)
+                c2 = Case(case.test, concretise_value(case.args, env), concretise_value(case.kwargs, env), n=case.n, pat=case.pat,
+                          meta=case.meta, label=case.label + f' with {{{", ".join(f"{X.show(a)}={float(v):g}" for a, v in sorted(env.items(), key=repr)[:6])}}}',
+                          features=case.features, owned=case.owned, parse_time=case.parse_time)
+                out = run_case(ck, c2)
+                runs += 1
+                if out.kind == 'raise':
+                    ck.violate(rule + '.total', f'{fn_key(case)}:raises-{out.exc.tname}:{case.meta.get("class", "valid-input")}',
+                               f'{c2.label}: raises {out.exc.tname}{out.exc.args} on valid input', dict(case=c2.label, site=_site(out)))
+                    bad += 1
+                    break
+                vec = result_vec(ck, rule, c2, out)
+                if vec is None or len(vec) != case.n:
+                    ck.violate(rule + '.shape', f'{fn_key(case)}:length', f'{c2.label}: result does not have one flag per input')
+                    bad += 1
+                    break
+                got, masked = concrete_flags_of(vec, p)
+                if want is not None and (not got <= set(want) or masked is not False):
+                    ck.violate(rule + '.table', f'{fn_key(case)}:{case.meta.get("class", "")}:got={"/".join(sorted(map(str, got)))}:allowed={"/".join(sorted(map(str, want)))}',
+                               f'{c2.label}: position {p} gives {sorted(map(str, got))}{" (masked)" if masked is not False else ""}, the property allows {sorted(want)} '
+                               f'(cell {{{", ".join(f"{X.show(q)}={float(v):g}" for q, v in actual.items())}}}) [concretised run]',
+                               dict(case=c2.label))
+                    bad += 1
+            if bad > 5:
+                break
+    ck.evaluations += runs
+    if not bad:
+        ck.hold(rule + '.table', case.label + ' [concretised]')
